@@ -526,6 +526,10 @@ func c19Generate(tier string, emit func(src string)) {
 			emit("<!-- a -->" + strings.Repeat("\n", n) + "<!-- b -->" + frag)
 		}
 	}
+	// ... also when that first tag is written self-closing, with the slash right after the name
+	for _, src := range []string{`<col/><col span="2"/>`, "<td/>\n<td>{{ a }}</td>", `<tr/><tr><td>x</td></tr>`, `<th/><th scope="col">h</th>`, `<tbody/><tbody><tr><td>x</td></tr></tbody>`, `<caption/><caption>c</caption>`, `<colgroup/><colgroup><col></colgroup>`, `<thead/><thead><tr><th>h</th></tr></thead>`, "<!-- c --><td/><td>y</td>", `<tfoot/><tfoot><tr><td>f</td></tr></tfoot>`} {
+		emit(src)
+	}
 	// front-matter and documents
 	fms := []string{"", "---\ntitle: x\n---\n", "---\nlayout: base\nitems:\n  - a\n  - b\n---\n", "---\n---\n", "---\ntitle: \"a: b\"\n---\n\n"}
 	docs := []string{"<p>{{ title }}</p>", "<div class=\"a\">\n  <span>x</span>\n</div>\n", "<!DOCTYPE html>\n<html>\n<head>\n<title>T</title>\n</head>\n<body>\n<p>x</p>\n</body>\n</html>\n",
